@@ -37,6 +37,19 @@ func genC04(g gen.G) C04Case {
 			calls[i].Byte += 100000
 		}
 	}
+	// every whole-file query on every file, once before and once after the positional ones
+	var whole []Call
+	for pi, p := range w.Paths {
+		for _, f := range p.Files {
+			for _, k := range FileKinds {
+				whole = append(whole, Call{Kind: k, Path: pi, File: f.Name})
+			}
+		}
+	}
+	if g.Bool() {
+		calls = append(append([]Call{}, whole...), calls...)
+	}
+	calls = append(calls, whole...)
 	return C04Case{World: w, Calls: calls}
 }
 
